@@ -74,14 +74,15 @@ def flatten(items):
 
 # ------------------------------------------------------------------ S in Python (independent of Coq)
 def recognise(t):
-    for flag, k in (("-D", 0), ("-I", 1), ("-isystem", 1), ("-include", 2)):
+    for flag, k in (("-D", 0), ("-I", 1), ("-isystem", 2), ("-include", 3)):
         if t.startswith(flag):
             return k, t[len(flag):]
     return None
 
 
 def scan_py(argv):
-    out = ([], [], [])
+    """[defines, -I directories followed by -isystem directories, forced includes], each in command-line order"""
+    out = ([], [], [], [])
     pend = None
     for t in argv:
         if pend is not None:
@@ -96,7 +97,7 @@ def scan_py(argv):
             pend = k
         else:
             out[k].append(v)
-    return [list(out[0]), list(out[1]), list(out[2])]
+    return [list(out[0]), list(out[1]) + list(out[2]), list(out[3])]
 
 
 # ------------------------------------------------------------------ POSIX-shell renderings (Spec/C11sh.v, in Python)
@@ -660,8 +661,8 @@ class C11(Check):
             for i in rng.sample(range(8), rng.randint(0, 4)):
                 v = f"CBI_M{i}" + rng.choice(["", "=1", "=a b", "=x=y", "=\"q\"", "=-1", "="])
                 items.append(["-D" + v] if rng.random() < 0.5 else ["-D", v])
-            flag = rng.choice(["-I", "-isystem"])
             for k in rng.sample(range(5), rng.randint(0, 4)):
+                flag = rng.choice(["-I", "-isystem"])
                 items.append([flag + f"d{k}"] if rng.random() < 0.5 else [flag, f"d{k}"])
             for k in rng.sample(range(4), rng.randint(0, 3)):
                 items.append([f"-includeh{k}.h"] if rng.random() < 0.5 else ["-include", f"h{k}.h"])
